@@ -52,6 +52,10 @@ func registerC17() {
 
 const semiToDeg = 180.0 / 2147483648.0
 
+// c17Formats: verbs under which fmt prints a Stringer as text, with field widths below, at and
+// above the length of a printed coordinate.
+var c17Formats = []string{"%v", "%s", "%+v", "%8v", "%4v", "%-9s", "%12s", "%3s", "%-20v", "%1v", "%10v", "%-6v", "%9s", "%11v", "% v", "%2s"}
+
 var coordBoundaries = map[int32]bool{}
 
 func init() {
@@ -76,6 +80,8 @@ func c17Coords(c *lib.Ctx, idx uint64) {
 		}
 	}
 	printed := int64(0)
+	fmtPrinted := int64(0)
+	defer func() { c.Count("values_printed_through_fmt_verbs", fmtPrinted) }()
 	for i := uint32(0); i < 1<<20; i++ {
 		s := int32(base + i)
 		// Latitude.
@@ -154,6 +160,31 @@ func c17Coords(c *lib.Ctx, idx uint64) {
 			loStr := lo.String()
 			checkPrinted("latitude", laStr, latInv, deg)
 			checkPrinted("longitude", loStr, lngInv, ldeg)
+			// the other ways a value gets printed: through the fmt verbs that print a Stringer as
+			// text (%v %s %+v, with and without a field width, left- or right-aligned, as a value, a
+			// pointer, inside a struct and a slice) and fmt.Sprint / Sprintln. A width pads, it
+			// never cuts; what is printed must still be within 2e-5 degrees.
+			if printed%7 == 0 || coordBoundaries[s] {
+				k := int(printed/7) % len(c17Formats)
+				fm := c17Formats[k]
+				checkPrinted("latitude printed with "+fm, strings.TrimSpace(fmt.Sprintf(fm, la)), latInv, deg)
+				checkPrinted("longitude printed with "+fm, strings.TrimSpace(fmt.Sprintf(fm, lo)), lngInv, ldeg)
+				switch k % 4 {
+				case 0:
+					checkPrinted("latitude printed by Sprint", fmt.Sprint(la), latInv, deg)
+					checkPrinted("longitude printed by Sprintln", strings.TrimSpace(fmt.Sprintln(lo)), lngInv, ldeg)
+				case 1:
+					checkPrinted("*latitude printed with "+fm, strings.TrimSpace(fmt.Sprintf(fm, &la)), latInv, deg)
+					checkPrinted("*longitude printed with "+fm, strings.TrimSpace(fmt.Sprintf(fm, &lo)), lngInv, ldeg)
+				case 2:
+					in := strings.Trim(strings.TrimSpace(fmt.Sprintf(fm, []fit.Longitude{lo})), "[] ")
+					checkPrinted("[]longitude printed with "+fm, in, lngInv, ldeg)
+				case 3:
+					in := strings.Trim(strings.TrimSpace(fmt.Sprintf(fm, struct{ A fit.Latitude }{la})), "{}A: ")
+					checkPrinted("struct{latitude} printed with "+fm, in, latInv, deg)
+				}
+				fmtPrinted++
+			}
 			if c17Held[0].s != c17Held[0].copy || c17Held[1].s != c17Held[1].copy {
 				report("the printed form of semicircles %d changed after later String() calls: now %q / %q, was %q / %q", c17Held[0].of, c17Held[0].s, c17Held[1].s, c17Held[0].copy, c17Held[1].copy)
 			}
